@@ -154,7 +154,7 @@ theorem inv_timerc {s : St} (k : Nat) (h : Inv s) : Inv (timerc s k) := by
       · rw [this.mpr hs] at hd; cases hd
 
 
-theorem inv_redefine {s : St} (k v : Nat) (h : Inv s) : Inv (redefine s k v) := by
+theorem inv_redefine {s : St} (k v a : Nat) (h : Inv s) : Inv (redefine s k v a) := by
   unfold redefine
   refine ⟨?_, h.hlt, ?_, ?_, ?_, ?_, ?_, ?_, ?_, ?_⟩
   · intro x hx
@@ -378,9 +378,9 @@ theorem mid_timerc {s : St} {k : Nat} {T n : Int} {dur : Nat} (j : Nat) (m : Mid
   · rw [f.2.2.2.1, f.2.2.2.2]; exact m.bnd
   · rw [f.2.1]; exact m.kc
 
-theorem mid_redefine {s : St} {k : Nat} {T n : Int} {dur : Nat} (j v : Nat) (m : Mid s k T n dur) :
-    Mid (redefine s j v) k T n dur := by
-  refine ⟨inv_redefine j v m.inv, m.noh, ?_, m.now, m.n1, ?_, m.kc⟩
+theorem mid_redefine {s : St} {k : Nat} {T n : Int} {dur : Nat} (j v a : Nat) (m : Mid s k T n dur) :
+    Mid (redefine s j v a) k T n dur := by
+  refine ⟨inv_redefine j v a m.inv, m.noh, ?_, m.now, m.n1, ?_, m.kc⟩
   · simpa [redefine, lastTick] using m.lt
   · have := m.bnd
     by_cases hjk : k = j <;> simpa [redefine, hjk] using this
@@ -391,7 +391,7 @@ theorem mid_doAct {s : St} {k : Nat} {T n : Int} {dur : Nat} (a : Act) (m : Mid 
   | none => exact m
   | cancelSelf => exact mid_timerc k m
   | cancelOther j => exact mid_timerc j m
-  | redefine v => exact mid_redefine k v m
+  | redefine v a => exact mid_redefine k v a m
   | raise => exact m
 
 theorem mid_ret_true {s : St} {k : Nat} {T n : Int} {dur : Nat} (m : Mid s k T n dur) :
@@ -408,10 +408,9 @@ theorem mid_ret_true {s : St} {k : Nat} {T n : Int} {dur : Nat} (m : Mid s k T n
   · simpa [lastTick] using m.lt
 
 /-- the timer stops: a stop event of `k` is logged and the handle is cleared -/
-theorem inv_stop_cancel {s : St} {k : Nat} {T n : Int} {dur : Nat} (m : Mid s k T n dur) (e : Ev)
-    (he : e = .ret k false ∨ e = .raised k) :
+theorem inv_stop_cancel' {s : St} {k : Nat} (h : Inv s) (hnoh : ∀ x ∈ s.handles, x.timer ≠ k)
+    (hkc : k < s.ntimers) (e : Ev) (he : e = .ret k false ∨ e = .raised k) :
     Inv (cancel { s with log := e :: s.log } k).1 := by
-  have h := m.inv
   have hstop : isStop k e = true := by rcases he with rfl | rfl <;> simp [isStop]
   have hother : ∀ j, j ≠ k → isStop j e = false := by
     intro j hj
@@ -434,7 +433,7 @@ theorem inv_stop_cancel {s : St} {k : Nat} {T n : Int} {dur : Nat} (m : Mid s k 
       · subst hjk; simp [hstop, hd]
       · simpa [hother j hjk] using h.dstop j hj
     · intro j hj
-      have hjk : j ≠ k := by have := m.kc; simp only at hj; omega
+      have hjk : j ≠ k := by have := hkc; simp only at hj; omega
       simpa [hother j hjk, hlt] using h.fresh j hj
     · intro j; simpa [hcr] using h.crt j
     · intro x hx; simpa [hlt] using h.htime x hx
@@ -445,7 +444,7 @@ theorem inv_stop_cancel {s : St} {k : Nat} {T n : Int} {dur : Nat} (m : Mid s k 
     refine ⟨?_, ?_, ?_, ?_, ?_, ?_, ?_, ?_, ?_, ⟨hev, h.logok⟩⟩
     · intro x hx
       simp only [List.mem_filter] at hx
-      have hne := m.noh x hx.1
+      have hne := hnoh x hx.1
       simpa [hne] using h.hdel x hx.1
     · intro x hx; simp only [List.mem_filter] at hx; exact h.hlt x hx.1
     · intro j hj
@@ -453,12 +452,12 @@ theorem inv_stop_cancel {s : St} {k : Nat} {T n : Int} {dur : Nat} (m : Mid s k 
       · subst hjk; simp [hstop]
       · simpa [hjk, hother j hjk] using h.dstop j hj
     · intro j hj
-      have hjk : j ≠ k := by have := m.kc; simp only at hj; omega
+      have hjk : j ≠ k := by have := hkc; simp only at hj; omega
       simpa [hjk, hother j hjk, hlt] using h.fresh j hj
     · intro j; simpa [hcr] using h.crt j
     · intro x hx
       simp only [List.mem_filter] at hx
-      have hne := m.noh x hx.1
+      have hne := hnoh x hx.1
       simpa [hne, hlt] using h.htime x hx.1
     · intro j hj
       have := h.startle j hj
@@ -467,6 +466,30 @@ theorem inv_stop_cancel {s : St} {k : Nat} {T n : Int} {dur : Nat} (m : Mid s k 
     · intro j
       have := h.ver j
       by_cases hjk : j = k <;> simpa [hjk, hlv] using this
+
+theorem inv_stop_cancel {s : St} {k : Nat} {T n : Int} {dur : Nat} (m : Mid s k T n dur) (e : Ev)
+    (he : e = .ret k false ∨ e = .raised k) :
+    Inv (cancel { s with log := e :: s.log } k).1 :=
+  inv_stop_cancel' m.inv m.noh m.kc e he
+
+/-- the loop pops a handle (nothing else happens yet) -/
+theorem inv_pop {s : St} (hi : Inv s) {h : LH} (hm : h ∈ s.handles) (adv : Nat) :
+    Inv { s with handles := s.handles.filter (fun x => x.id != h.id), now := s.now + adv } ∧
+    ∀ x ∈ s.handles.filter (fun x => x.id != h.id), x.timer ≠ h.timer := by
+  have hd := hi.hdel h hm
+  have hnoh : ∀ x ∈ s.handles.filter (fun x => x.id != h.id), x.timer ≠ h.timer := by
+    intro x hx hxt
+    simp only [List.mem_filter] at hx
+    have := hi.hdel x hx.1
+    rw [hxt, hd] at this
+    simp at this
+    simp [this] at hx
+  refine ⟨⟨?_, ?_, hi.dstop, hi.fresh, hi.crt, ?_, ?_, ?_, hi.ver, hi.logok⟩, hnoh⟩
+  · intro x hx; simp only [List.mem_filter] at hx; exact hi.hdel x hx.1
+  · intro x hx; simp only [List.mem_filter] at hx; exact hi.hlt x hx.1
+  · intro x hx; simp only [List.mem_filter] at hx; exact hi.htime x hx.1
+  · intro j hj; have := hi.startle j hj; simp only; omega
+  · intro T d hl; have := hi.nowge T d hl; simp only; omega
 
 theorem inv_schedule {s : St} {k : Nat} {T n : Int} {dur : Nat} (drift : Nat) (m : Mid s k T n dur)
     (hd : (s.tm k).delegate ≠ none) : Inv (schedule s k drift n) := by
@@ -528,6 +551,15 @@ theorem inv_dispatch {c : Cfg} (hc : c.good) {s s' : St} (hi : Inv s)
   · rename_i h hfind
     obtain ⟨hm, hidh⟩ := find_id hfind
     split at hs
+    · -- the binding takes parameters: the body does not run, the timer stops
+      split at hs
+      · simp only [Option.some.injEq] at hs
+        subst hs
+        obtain ⟨hp, hnoh⟩ := inv_pop hi hm adv
+        rw [hidh] at hp hnoh
+        exact inv_stop_cancel' hp hnoh (hi.hlt h hm) (.raised h.timer) (Or.inr rfl)
+      · cases hs
+    split at hs
     · rename_i hleg
       have m := mid_pop hres hi hm adv dur hleg
       rw [hidh] at m
@@ -570,10 +602,10 @@ theorem inv_step {c : Cfg} (hc : c.good) {s : St} (hi : Inv s) (i : Inp) : Inv (
   | create I => exact inv_create I hi
   | advance d => exact inv_advance d hi
   | timerc k => exact inv_timerc k hi
-  | redefine k v =>
+  | redefine k v a =>
     simp only [step]
     split
-    · exact inv_redefine k v hi
+    · exact inv_redefine k v a hi
     · exact hi
   | dispatch hid adv dur ret act drift =>
     simp only [step]
@@ -652,8 +684,8 @@ theorem inv2_timerc {s : St} {ex : Option Nat} (j : Nat) (h : Inv2 s ex) : Inv2 
   unfold timerc
   exact inv2_congr (s := (cancel s j).1) rfl rfl rfl this
 
-theorem inv2_redefine {s : St} {ex : Option Nat} (j v : Nat) (h : Inv2 s ex) :
-    Inv2 (redefine s j v) ex := by
+theorem inv2_redefine {s : St} {ex : Option Nat} (j v a : Nat) (h : Inv2 s ex) :
+    Inv2 (redefine s j v a) ex := by
   unfold redefine
   refine ⟨h.idlt, ?_, ?_, ?_⟩
   · intro i d hdi
@@ -673,7 +705,7 @@ theorem inv2_doAct {s : St} {ex : Option Nat} (k : Nat) (a : Act) (h : Inv2 s ex
   | none => exact h
   | cancelSelf => exact inv2_timerc k h
   | cancelOther j => exact inv2_timerc j h
-  | redefine v => exact inv2_redefine k v h
+  | redefine v a => exact inv2_redefine k v a h
   | raise => exact h
 
 /-- (re)scheduling timer `k`, which has no pending handle, restores the full invariant -/
@@ -765,6 +797,12 @@ theorem inv2_dispatch {c : Cfg} (hc : c.good) {s s' : St} (hi : Inv s) (h2 : Inv
     have hself : ∀ (i : Nat), none ≠ some i → i ≠ h.timer → some h.timer ≠ some i := by
       intro i _ hne e; exact hne (Option.some.inj e).symm
     split at hs
+    · split at hs
+      · simp only [Option.some.injEq] at hs
+        subst hs
+        exact inv2_cancel (ex := some h.timer) h.timer (m0 _ _) hself
+      · cases hs
+    split at hs
     · dsimp only at hs
       split at hs
       · simp only [Option.some.injEq] at hs
@@ -799,10 +837,10 @@ theorem inv2_step {c : Cfg} (hc : c.good) {s : St} (hi : Inv s) (h2 : Inv2 s non
   | create I => exact inv2_create I h2
   | advance d => exact inv2_congr (s := s) rfl rfl rfl h2
   | timerc k => exact inv2_timerc k h2
-  | redefine k v =>
+  | redefine k v a =>
     simp only [step]
     split
-    · exact inv2_redefine k v h2
+    · exact inv2_redefine k v a h2
     · exact h2
   | dispatch hid adv dur ret act drift =>
     simp only [step]
@@ -985,6 +1023,87 @@ theorem live_timer_scheduled {c : Cfg} (hc : c.good) (is : List Inp) {k : Nat}
     rw [ht] at this
     exact this
 
+/-! ### a handle the loop runs either runs the callback body or leaves the timer dead -/
+
+theorem cancel_log (s : St) (k : Nat) : (cancel s k).1.log = s.log := by
+  unfold cancel; split <;> rfl
+
+theorem cancel_ntimers (s : St) (k : Nat) : (cancel s k).1.ntimers = s.ntimers := by
+  unfold cancel; split <;> rfl
+
+theorem doAct_ext (s : St) (k : Nat) (a : Act) : ∃ new, (doAct s k a).log = new ++ s.log := by
+  cases a with
+  | none => exact ⟨[], rfl⟩
+  | cancelSelf => exact ⟨[.timerc k (cancel s k).2], by simp [doAct, timerc, cancel_log]⟩
+  | cancelOther j => exact ⟨[.timerc j (cancel s j).2], by simp [doAct, timerc, cancel_log]⟩
+  | redefine v a => exact ⟨[.redefined k v], by simp [doAct, redefine]⟩
+  | raise => exact ⟨[], rfl⟩
+
+/-- never "armed but body not run": when the loop runs a due handle of timer `k` (any legal
+    dispatch from a reachable state), either the callback body runs (a tick of `k` is logged) or a
+    stop event of `k` is logged and the timer is dead: no delegate, no pending handle.  The second
+    case covers a callback binding that takes parameters (`KGFnWrapper._apply` raises before the
+    body), a raise, and a false return. -/
+theorem due_handle_runs_body_or_stops {c : Cfg} (hc : c.good) (is : List Inp) {s' : St}
+    {hid adv dur : Nat} {ret : Bool} {act : Act} {drift : Nat}
+    (hs : dispatch c (run c init is) hid adv dur ret act drift = some s') :
+    ∃ h ∈ (run c init is).handles, h.id = hid ∧ ∃ new, s'.log = new ++ (run c init is).log ∧
+      ((∃ x ∈ new, isTick h.timer x = true) ∨
+       ((∃ x ∈ new, isStop h.timer x = true) ∧ (s'.tm h.timer).delegate = none ∧
+        ∀ x ∈ s'.handles, x.timer ≠ h.timer)) := by
+  have hi := inv_reachable hc is
+  have hi' := inv_dispatch hc hi hs
+  generalize run c init is = s at hs hi
+  have dead : ∀ (k : Nat), k < s'.ntimers → stopped k s'.log = true →
+      (s'.tm k).delegate = none ∧ ∀ x ∈ s'.handles, x.timer ≠ k := by
+    intro k hk hst
+    have hd := (hi'.dstop k hk).mpr hst
+    refine ⟨hd, ?_⟩
+    intro x hx hxt
+    have := hi'.hdel x hx
+    rw [hxt, hd] at this
+    cases this
+  have hnt : ∀ (h : LH), h ∈ s.handles → s.ntimers ≤ s'.ntimers → h.timer < s'.ntimers := by
+    intro h hm hle; have := hi.hlt h hm; omega
+  obtain ⟨hf1, hf2, hres⟩ := hc
+  unfold dispatch at hs
+  split at hs
+  · cases hs
+  · rename_i h hfind
+    obtain ⟨hm, hidh⟩ := find_id hfind
+    refine ⟨h, hm, hidh, ?_⟩
+    split at hs
+    · split at hs
+      · simp only [Option.some.injEq] at hs
+        have hlog : s'.log = [.raised h.timer] ++ s.log := by
+          rw [← hs]; simp [cancel_log]
+        have hnt' : s.ntimers ≤ s'.ntimers := by
+          rw [← hs, cancel_ntimers]; exact Nat.le_refl _
+        refine ⟨_, hlog, Or.inr ⟨⟨.raised h.timer, by simp, by simp [isStop]⟩, ?_⟩⟩
+        exact dead h.timer (hnt h hm hnt') (by rw [hlog]; simp [isStop])
+      · cases hs
+    split at hs
+    · dsimp only at hs
+      split at hs
+      · simp only [Option.some.injEq] at hs
+        refine ⟨[.raised h.timer, (.tick h.timer (s.tm h.timer).start (s.tm h.timer).interval (s.now + adv) h.n dur (s.tm h.timer).ver)], ?_,
+          Or.inl ⟨(.tick h.timer (s.tm h.timer).start (s.tm h.timer).interval (s.now + adv) h.n dur (s.tm h.timer).ver), by simp, by simp [isTick]⟩⟩
+        rw [← hs]; simp [cancel_log]
+      · obtain ⟨new, hnew⟩ := doAct_ext
+          ({ s with handles := s.handles.filter (fun x => x.id != hid), now := s.now + adv + dur, log := .tick h.timer (s.tm h.timer).start (s.tm h.timer).interval (s.now + adv) h.n dur (s.tm h.timer).ver :: s.log } : St)
+          h.timer act
+        refine ⟨.ret h.timer ret :: new ++ [(.tick h.timer (s.tm h.timer).start (s.tm h.timer).interval (s.now + adv) h.n dur (s.tm h.timer).ver)], ?_,
+          Or.inl ⟨(.tick h.timer (s.tm h.timer).start (s.tm h.timer).interval (s.now + adv) h.n dur (s.tm h.timer).ver), by simp, by simp [isTick]⟩⟩
+        split at hs
+        · simp only [Option.some.injEq] at hs
+          rw [← hs]; simp [hnew]
+        · split at hs
+          · simp only [Option.some.injEq] at hs
+            rw [← hs]; simp [schedule, hnew]
+          · simp only [Option.some.injEq] at hs
+            rw [← hs]; simp [cancel_log, hnew]
+    · cases hs
+
 /-! ### non-vacuity: a concrete run (repaired code, resolution 2, minAdvance 2) -/
 
 def goodCfg : Cfg := ⟨2, 2, true, true⟩
@@ -993,7 +1112,7 @@ theorem goodCfg_good : goodCfg.good := ⟨rfl, rfl, by decide⟩
 /-- interval 2 s; first dispatch one tick early, callback runs 3000 ticks (skips boundary 2) and
     redefines itself; second run cancels its own timer from inside the callback; `.timerc` again -/
 def demo : List Inp :=
-  [.create 2048, .advance 2047, .dispatch 0 2 3000 true (.redefine 7) 1, .advance 1100,
+  [.create 2048, .advance 2047, .dispatch 0 2 3000 true (.redefine 7 0) 1, .advance 1100,
    .dispatch 1 2 5 true .cancelSelf 0, .timerc 0]
 
 def demoTail : List Ev :=
@@ -1025,6 +1144,17 @@ example : 7 = lastVer 0 demoTail :=
 example :=
   live_timer_scheduled goodCfg_good (demo.take 3) (k := 0) (by decide) (by decide)
 example : (run goodCfg init (demo.take 3)).handles = [⟨1, 0, false, 6145, 3⟩] := by decide
+
+/-- the callback is redefined to take a parameter while the timer runs: at the next boundary the body
+    does not run (no tick), the timer stops, and `.timerc` then reports 0 -/
+def demoArity : List Inp :=
+  [.create 2048, .advance 2048, .dispatch 0 2 0 true .none 0, .redefine 0 9 1, .advance 2046,
+   .dispatch 1 0 0 true .none 0, .timerc 0]
+example : (run goodCfg init demoArity).log =
+    [.timerc 0 0, .raised 0, .redefined 0 9, .ret 0 true, .tick 0 0 2048 2050 1 0 0, .created 0 0 2048] ∧
+    (run goodCfg init demoArity).handles = [] := by decide
+example := due_handle_runs_body_or_stops goodCfg_good (demoArity.take 5) (hid := 1) (adv := 0) (dur := 0)
+    (ret := true) (act := .none) (drift := 0) (s' := run goodCfg init (demoArity.take 6)) rfl
 
 /-! ### the pinned tree violates the property (both defects of DESIGN §8), decided on witnesses -/
 
